@@ -434,7 +434,11 @@ def evaluate(check, mod, cases):
 def shrink_failure(check, mod, case, kind):
     """Greedy shrinking keeping the same kind of failure (oracle / corr)."""
     cur = case
+    t0 = time.time()
+    budget = float(os.environ.get("VERIF_SHRINK_BUDGET", "75"))
     for _ in range(60):
+        if time.time() - t0 > budget:      # time-boxed: a partly shrunk replay is still a replay
+            break
         cands = list(check.shrink(cur))[:64]
         if not cands:
             break
